@@ -6,6 +6,7 @@ import (
 	"math/rand"
 	"net"
 	"sort"
+	"sync/atomic"
 	"testing"
 	"time"
 
@@ -154,7 +155,8 @@ func newHist(t *testing.T, rng *rand.Rand, rec *sim.Rec, k Knobs) *hist {
 	}
 	h.w = w
 	h.m = sim.NewModel(w)
-	if rng.Intn(4) == 0 {
+	slowDeletes := rng.Intn(4) == 0
+	if slowDeletes {
 		// the operator's deletion callbacks are slow (a yield storm, they run under the library's
 		// locks): entries that expire at the same instant are removed by goroutines that interleave
 		w.SetEventDelay("chan-", time.Second)
@@ -241,8 +243,72 @@ func newHist(t *testing.T, rng *rand.Rand, rec *sim.Rec, k Knobs) *hist {
 		d6, _ := w.NewPeer("denied6", deniedIP6, 7900)
 		h.denied = append(h.denied, d6)
 	}
+	if slowDeletes {
+		h.probeInsideDeletionCallbacks()
+	}
 
 	return h
+}
+
+// probeInsideDeletionCallbacks: while the operator's permission-deleted / channel-deleted callback
+// runs (slowly), the entry it reports has expired; data submitted from inside the callback - a
+// Send indication and a peer datagram for the permission, ChannelData for the channel - must not
+// be relayed. Nothing is expected for these datagrams: whatever comes out is reported by the next
+// audit as an emission no submission explains.
+func (h *hist) probeInsideDeletionCallbacks() {
+	clients := append([]*sim.RawClient{}, h.clients...)
+	peers := append(append([]*sim.Peer{}, h.peers...), h.denied...)
+	// a channel binding authorises its peer's exact transport address beyond the permission's
+	// expiry, so the datagram toward the client comes from a port of that host no channel is ever
+	// bound to
+	alt := map[string]*sim.Peer{}
+	for _, p := range peers {
+		if alt[p.Addr.IP.String()] == nil {
+			if a, err := h.w.NewPeer("alt-"+p.Name, p.Addr.IP, 7950); err == nil {
+				alt[p.Addr.IP.String()] = a
+			}
+		}
+	}
+	var seq atomic.Uint32
+	h.w.SetOnEventStart(func(ev sim.LifeEvent) {
+		if ev.Kind != "perm-" && ev.Kind != "chan-" {
+			return
+		}
+		var c *sim.RawClient
+		for _, k := range clients {
+			if k.Addr.String() == ev.Src && k.IsTCP == (ev.Net == "tcp") && k.ServerAddr().String() == ev.Dst && !k.Closed {
+				c = k
+			}
+		}
+		if c == nil {
+			return
+		}
+		n := seq.Add(1)
+		tag := []byte(fmt.Sprintf("sent-inside-%s-callback-%d", ev.Kind, n))
+		if ev.Kind == "chan-" {
+			_ = c.SendRaw(wire.EncodeChannelData(ev.Num, tag, true))
+			h.rec.Ev("probes-inside-channel-deleted-callback")
+
+			return
+		}
+		relay, err := net.ResolveUDPAddr("udp", ev.Relay)
+		for _, p := range peers {
+			if p.Addr.IP.String() != ev.Peer {
+				continue
+			}
+			var tid [12]byte
+			binary.BigEndian.PutUint32(tid[:4], 0xDE1E7E00)
+			binary.BigEndian.PutUint32(tid[8:], n)
+			b := wire.NewBuilder(wire.MethodSend, wire.ClassIndication, tid)
+			b.AddXorAddr(wire.AttrXORPeerAddress, p.Addr.IP, p.Addr.Port)
+			b.Add(wire.AttrData, tag)
+			_ = c.SendRaw(b.Bytes())
+			h.rec.Ev("probes-inside-permission-deleted-callback")
+		}
+		if a := alt[ev.Peer]; a != nil && err == nil {
+			_, _ = a.UDP.WriteTo(append([]byte("peer-"), tag...), relay)
+		}
+	})
 }
 
 func (h *hist) anyPeer() *sim.Peer {
